@@ -72,6 +72,13 @@ pub fn alphabet() -> Vec<&'static str> {
     "{a: 1}",
     "{a: 1, b: 2}",
     "{b: 2, a: 1}",
+    // other keys, values of other kinds, nested values
+    "{a: 1, c: \"x\"}",
+    "{c: 1, d: 1}",
+    "{a: \"x\"}",
+    "{a: [1], b: {c: null}}",
+    "[1, [2]]",
+    "[{a: 1}]",
     "[1..2]",
     "(1..2)",
     "function(p) p",
